@@ -112,6 +112,9 @@ def targeted_families(schema):
         out.append(("variable default: " + desc, Doc([Op("query", "Op", [Field("version")], [var])]), {"variable_default:" + desc.split()[0]}))
     sel = [Field("user", [Field("friend", [TN(), Field("id")])], args=[("id", '"1"')]), Field("userFriend", [Field("name")])]
     out.append(("same type name by two paths", Doc([Op("query", "Op", sel)]), None))
+    ua = FragDef("UA", "User", [Field("id"), Field("friend", [TN(), Spread("NA")])])
+    na = FragDef("NA", "Node", [TN(), Field("id"), Inline("User", [Spread("UA")])])
+    out.append(("mutually recursive fragments", Doc([ua, na, Op("query", "Op", [Field("me", [Spread("UA")])])]), None))
     # multi-operation documents (no operation selected => one module each, compiled together)
     sel_a = [Field("me", [Spread("UserA"), Field("role")])]
     sel_b = [Field("rename", [Spread("UserA")], args=[("id", "$id"), ("name", '"n"')])]
@@ -124,7 +127,7 @@ def targeted_families(schema):
 
 
 def derive_source(schema_rel, query_rel, attrs=""):
-    return ('#![allow(warnings)]\npub type Date = String;\n#[derive(graphql_client::GraphQLQuery)]\n'
+    return ('#![allow(warnings)]\npub type Date = String; pub type date_time = String; pub type DateTime = String;\n#[derive(graphql_client::GraphQLQuery)]\n'
             '#[graphql(schema_path = "%s", query_path = "%s"%s)]\npub struct Op;\n' % (schema_rel, query_rel, attrs))
 
 
@@ -179,7 +182,7 @@ def run(tier):
             continue
         if r.get("parse_error"):
             rep.violation("output_is_not_rust", x["label"], r["parse_error"], x["sigs"])
-        x["case"] = farm_b.add(Case(r["tokens"], x["mods"], prelude="pub type Date = String;"))
+        x["case"] = farm_b.add(Case(r["tokens"], x["mods"], prelude="pub type Date = String; pub type date_time = String; pub type DateTime = String;"))
     farm_b.build()
     for x in extra:
         if x["case"]:
